@@ -331,6 +331,55 @@ func enginePAIR(w *World, tier string) *EngineResult {
 	r.Stats["restore_closure_call_sites"] = nAcq
 	r.floor("restore_closure_call_sites", 6)
 
+	// (a') a snapshot handed to a restore-closure maker must be a fresh copy: the function
+	// that produces it allocates the map it returns on every path (nested scopes each hold
+	// their own snapshot until their closure runs)
+	nSnapMaps := 0
+	for _, fn := range w.Funcs {
+		for _, b := range fn.Blocks {
+			for _, ins := range b.Instrs {
+				c, ok := ins.(*ssa.Call)
+				if !ok {
+					continue
+				}
+				cal := c.Call.StaticCallee()
+				if cal == nil || cal.Pkg == nil || !inModule(cal.Pkg.Pkg.Path()) {
+					continue
+				}
+				if ri, _ := restoreResultIndex(cal.Signature); ri < 0 {
+					continue
+				}
+				for _, arg := range c.Call.Args {
+					if _, isMap := arg.Type().Underlying().(*types.Map); !isMap {
+						continue
+					}
+					src, ok := arg.(*ssa.Call)
+					if !ok || src.Call.StaticCallee() == nil || len(src.Call.StaticCallee().Blocks) == 0 {
+						continue
+					}
+					producer := src.Call.StaticCallee()
+					nSnapMaps++
+					fresh := true
+					for _, pb := range producer.Blocks {
+						if ret, ok := pb.Instrs[len(pb.Instrs)-1].(*ssa.Return); ok && len(ret.Results) == 1 {
+							if mm, ok := ret.Results[0].(*ssa.MakeMap); !ok || mm.Parent() != producer {
+								fresh = false
+							}
+						}
+					}
+					construct := "snapshot from " + producer.Name()
+					if fresh {
+						r.holds("PAIR-fresh", fnKey(fn), construct, "the snapshot captured by the restore closure is a map allocated by "+fnKey(producer)+" for this call", w.pos(instrPos(src)))
+					} else {
+						r.violated("PAIR-fresh", fnKey(fn), construct, fnKey(producer)+" does not return a freshly allocated map: scopes nest, so an inner scope's snapshot overwrites the one an outer scope still holds and the outer restore keeps what it should delete", w.pos(instrPos(src)))
+					}
+				}
+			}
+		}
+	}
+	r.Stats["snapshot_maps_captured"] = nSnapMaps
+	r.floor("snapshot_maps_captured", 1)
+
 	// (b) snapshot/restore of argument types: resolved by role over base.ArgumentSnapShot
 	var snapGlobal *ssa.Global
 	if bp := w.Prog.ImportedPackage(modulePath + "/base"); bp != nil {
